@@ -98,6 +98,8 @@ MUTANTS = [
     ("c19-close-not-propagated", "internal/pkg/midi/device/config/monitor.go", "\t\tdefer close(change)\n", "", ["C19"]),
     ("c19-every-second-write", "internal/pkg/midi/device/config/monitor.go", "\t\tfor event := range watcher.Events {\n", "\t\tn := 0\n\t\tfor event := range watcher.Events {\n\t\t\tn++\n\t\t\tif n > 12 && n%2 == 0 {\n\t\t\t\tcontinue\n\t\t\t}\n", ["C19"]),
     ("c20-group-by-name", "internal/pkg/input/info.go", "return PhysicalID(d.Phys)\n}\n", "return PhysicalID(d.Phys + d.Name[:1])\n}\n", ["C20"]),
+    ("c20-group-without-interface", "internal/pkg/input/info.go", ["return PhysicalID(d.Phys)\n}\n", "import (\n\t\"fmt\"\n"], ["return PhysicalID(strings.SplitN(d.Phys, \"/input\", 2)[0])\n}\n", "import (\n\t\"fmt\"\n\t\"strings\"\n"], ["C20"]),
+    ("c20-group-case-insensitive", "internal/pkg/input/info.go", ["return PhysicalID(d.Phys)\n}\n", "import (\n\t\"fmt\"\n"], ["return PhysicalID(strings.ToLower(strings.TrimSpace(d.Phys)))\n}\n", "import (\n\t\"fmt\"\n\t\"strings\"\n"], ["C20"]),
     ("c20-keyboard-contains-only", "internal/pkg/input/device.go", "\tcase contains(handlers, DI_TYPE_STD_KBD):", "\tcase containsOnly(handlers, DI_TYPE_STD_KBD):", ["C20"]),
     ("c20-first-handler-decides", "internal/pkg/input/device.go", "dev.DeviceType = DetermineDeviceType(foo)", "dev.DeviceType = DetermineDeviceType(foo[:1])", ["C20"]),
     ("c20-has-depends-on-first", "internal/pkg/input/info.go", "\tcase has(d.CapableTypes, evdev.EV_ABS):\n\t\treturn DI_TYPE_JOYSTICK", "\tcase len(d.CapableTypes) > 0 && d.CapableTypes[0] != evdev.EV_ABS && has(d.CapableTypes, evdev.EV_ABS):\n\t\treturn DI_TYPE_JOYSTICK", ["C20"]),
@@ -167,10 +169,14 @@ def main():
         try:
             f = os.path.join(wt, path)
             src = open(f).read()
-            if src.count(old) != 1:
-                summary.append((name, "PATTERN-NOT-FOUND(%d)" % src.count(old)))
+            olds, news = (old, new) if isinstance(old, (list, tuple)) else ([old], [new])
+            bad = [o for o in olds if src.count(o) != 1]
+            if bad:
+                summary.append((name, "PATTERN-NOT-FOUND(%d)" % src.count(bad[0])))
                 continue
-            open(f, "w").write(src.replace(old, new))
+            for o, n_ in zip(olds, news):
+                src = src.replace(o, n_)
+            open(f, "w").write(src)
             b = run(["go", "build", "./internal/..."], cwd=wt, env=dict(os.environ, GOFLAGS="-mod=mod", GOPROXY="off", GOSUMDB="off", GOTOOLCHAIN="local"))
             if b.returncode != 0 and "alsa" not in b.stdout:
                 summary.append((name, "DOES-NOT-BUILD " + b.stdout[-300:]))
